@@ -36,7 +36,7 @@ func (w *World) extraEnabled() []core.WCmd {
 	// a client retries an entry whose submission failed
 	if n := len(w.failedItems); n > 0 {
 		for _, in := range w.insts {
-			if in.log == nil || in.dead || in.state != stRunning {
+			if in.log == nil || in.dead || in.state != stRunning || w.cacheParked(in) {
 				continue
 			}
 			add(12, core.Cmd{A: "submit", I: in.idx, N: int64(w.failedItems[r.Intn(n)]), S: "retry", V: r.Intn(16)})
